@@ -196,9 +196,16 @@ func c08Pairs(c *Ctx, p *Prog, ms map[string]*ssa.Function) {
 	dirty, setd, resize := ms["Dirty"], ms["SetDirty"], ms["Resize"]
 	for _, sfx := range pairs {
 		// Dirty reads both
-		rc, rl := len(loadsOf(dirty, cellOwner, "curr"+sfx)) > 0, len(loadsOf(dirty, cellOwner, "last"+sfx)) > 0
+		rc, rl := false, false
+		for _, host := range dirtyHosts(dirty) {
+			rc = rc || len(loadsOf(host, cellOwner, "curr"+sfx)) > 0
+			rl = rl || len(loadsOf(host, cellOwner, "last"+sfx)) > 0
+		}
 		// the loaded values must feed a comparison that can lead to `return true`
-		c.Check(rc && rl, "C08-R2", "Dirty:compares:"+sfx, p.pos(dirty.Pos()), fmt.Sprintf("reads curr%s: %v, last%s: %v", sfx, rc, sfx, rl))
+		// … in one comparison (of the two values, of their elements, or handed together to a helper that
+		// compares them) whose outcome reaches the answer
+		cmpOK := dirtyComparesPair(dirty, sfx)
+		c.Check(rc && rl && cmpOK, "C08-R2", "Dirty:compares:"+sfx, p.pos(dirty.Pos()), fmt.Sprintf("reads curr%s: %v, last%s: %v, compared with each other and the outcome reaches the answer: %v", sfx, rc, sfx, rl, cmpOK))
 		// SetDirty(false): last := curr under dirty == false
 		okCopy := false
 		for _, s := range storesTo(setd, cellOwner, "last"+sfx) {
@@ -232,38 +239,6 @@ func c08Pairs(c *Ctx, p *Prog, ms map[string]*ssa.Function) {
 		}
 		c.Check(okRes, "C08-R2", "Resize:copies:"+sfx, p.pos(resize.Pos()), "curr"+sfx+" preserved for the overlapping region")
 	}
-	// Dirty's comparison results must reach return true: at least len(pairs)+1 'return true'
-	nTrue := 0
-	for _, r := range returnsOf(dirty) {
-		if len(r.Results) == 1 {
-			if v, ok := constBool(r.Results[0]); ok && v {
-				nTrue++
-			}
-		}
-	}
-	// a computed answer (the result of the last comparison returned as it is) is an answer as well
-	for _, r := range returnsOf(dirty) {
-		if len(r.Results) == 1 {
-			if _, isC := r.Results[0].(*ssa.Const); !isC {
-				if _, isPhi := r.Results[0].(*ssa.Phi); !isPhi {
-					nTrue++
-				}
-			}
-		}
-	}
-	// returns may be merged into one block with a phi
-	if nTrue == 0 {
-		for _, r := range returnsOf(dirty) {
-			if phi, ok := r.Results[0].(*ssa.Phi); ok {
-				for _, e := range phi.Edges {
-					if v, ok := constBool(e); ok && v {
-						nTrue++
-					}
-				}
-			}
-		}
-	}
-	c.Check(nTrue >= 3, "C08-R2", "Dirty:answers", p.pos(dirty.Pos()), fmt.Sprintf("%d paths answer true (force-dirty marker + one per compared pair + length)", nTrue))
 	// Resize: width copied, lastMain zeroed
 	okW := false
 	for _, s := range storesTo(resize, cellOwner, "width") {
@@ -1081,4 +1056,140 @@ func freshCellLiteral(v ssa.Value) bool {
 		}
 	}
 	return true
+}
+
+// dirtyComparesPair: Dirty compares last<sfx> with curr<sfx> — the two loaded values in one == / !=,
+// their elements, reflect.DeepEqual of both, or a module helper that is handed both and compares its
+// two parameters — and the outcome of that comparison is connected to the value Dirty returns (as a
+// branch condition on the way to a return, as an operand of the returned expression).
+func dirtyComparesPair(dirty *ssa.Function, sfx string) bool {
+	for _, host := range dirtyHosts(dirty) {
+		if dirtyComparesPairIn(host, sfx) {
+			return true
+		}
+	}
+	return false
+}
+
+// dirtyHosts: Dirty and the helpers its answer comes from (`return c.stale()`): same-package functions it
+// calls whose result is connected to what it returns.
+func dirtyHosts(dirty *ssa.Function) []*ssa.Function {
+	out := []*ssa.Function{dirty}
+	seen := map[*ssa.Function]bool{dirty: true}
+	for i := 0; i < len(out) && i < 4; i++ {
+		eachInstr(out[i], func(in ssa.Instruction) {
+			call, ok := in.(*ssa.Call)
+			if !ok {
+				return
+			}
+			h := call.Call.StaticCallee()
+			if h == nil || h.Pkg != dirty.Pkg || len(h.Blocks) == 0 || seen[h] {
+				return
+			}
+			if bt, isB := call.Type().Underlying().(*types.Basic); !isB || bt.Kind() != types.Bool {
+				return
+			}
+			seen[h] = true
+			out = append(out, h)
+		})
+	}
+	return out
+}
+
+func dirtyComparesPairIn(dirty *ssa.Function, sfx string) bool {
+	isLoad := func(v ssa.Value, name string) bool {
+		ref, _, ok := loadedField(stripConv(v))
+		return ok && ref.Owner == cellOwner && ref.Name == name
+	}
+	elemOf := func(v ssa.Value, name string) bool { // v = (load name)[i]
+		u, ok := stripConv(v).(*ssa.UnOp)
+		if !ok || u.Op != token.MUL {
+			return false
+		}
+		ia, ok := u.X.(*ssa.IndexAddr)
+		return ok && isLoad(ia.X, name)
+	}
+	both := func(x, y ssa.Value, f func(ssa.Value, string) bool) bool {
+		return (f(x, "last"+sfx) && f(y, "curr"+sfx)) || (f(x, "curr"+sfx) && f(y, "last"+sfx))
+	}
+	// connected to the returned value
+	var connected func(v ssa.Value, seen map[ssa.Value]bool) bool
+	connected = func(v ssa.Value, seen map[ssa.Value]bool) bool {
+		if seen[v] {
+			return false
+		}
+		seen[v] = true
+		for _, r := range referrers(v) {
+			switch x := r.(type) {
+			case *ssa.Return:
+				return true
+			case *ssa.If:
+				// a branch in a function whose answers are decided by branches: some return follows
+				for _, ret := range returnsOf(x.Parent()) {
+					if reachableAfter(x, ret) {
+						return true
+					}
+				}
+			case ssa.Value:
+				if connected(x, seen) {
+					return true
+				}
+			}
+		}
+		return false
+	}
+	found := false
+	eachInstr(dirty, func(in ssa.Instruction) {
+		switch x := in.(type) {
+		case *ssa.BinOp:
+			if x.Op != token.EQL && x.Op != token.NEQ {
+				return
+			}
+			if (both(x.X, x.Y, isLoad) || both(x.X, x.Y, elemOf)) && connected(x, map[ssa.Value]bool{}) {
+				found = true
+			}
+		case *ssa.Call:
+			if len(x.Call.Args) < 2 {
+				return
+			}
+			a0, a1 := x.Call.Args[len(x.Call.Args)-2], x.Call.Args[len(x.Call.Args)-1]
+			if mi, ok := a0.(*ssa.MakeInterface); ok {
+				a0 = mi.X
+			}
+			if mi, ok := a1.(*ssa.MakeInterface); ok {
+				a1 = mi.X
+			}
+			if !both(a0, a1, isLoad) || !connected(x, map[ssa.Value]bool{}) {
+				return
+			}
+			if calleeName(&x.Call) == "reflect.DeepEqual" {
+				found = true
+				return
+			}
+			// a module helper comparing its two (last) parameters element by element
+			h := x.Call.StaticCallee()
+			if h == nil || h.Pkg != dirty.Pkg || len(h.Blocks) == 0 || len(h.Params) < 2 {
+				return
+			}
+			pa, pb := h.Params[len(h.Params)-2], h.Params[len(h.Params)-1]
+			eachInstr(h, func(hin ssa.Instruction) {
+				bo, ok := hin.(*ssa.BinOp)
+				if !ok || (bo.Op != token.EQL && bo.Op != token.NEQ) {
+					return
+				}
+				el := func(v ssa.Value, prm *ssa.Parameter) bool {
+					u, ok := stripConv(v).(*ssa.UnOp)
+					if !ok || u.Op != token.MUL {
+						return false
+					}
+					ia, ok := u.X.(*ssa.IndexAddr)
+					return ok && ia.X == ssa.Value(prm)
+				}
+				if (el(bo.X, pa) && el(bo.Y, pb)) || (el(bo.X, pb) && el(bo.Y, pa)) {
+					found = true
+				}
+			})
+		}
+	})
+	return found
 }
